@@ -225,7 +225,10 @@ def _add_step(built: Built, level: Level, stack: List[Level], i: int, step: Dict
         built.count("blocks_explicit_" + rel[0])
     elif "sub" in step:
         child = _build_level(step["sub"], built, stack, path + (i,))
-        handle = circuit.add(child.circuit)
+        # add() takes the declarative circuit or its bare structure: both are nested as a COPY
+        handle = circuit.add(child.circuit.circuit_structure if step.get("as_structure") else child.circuit)
+        if step.get("as_structure"):
+            built.count("blocks_added_as_structure")
         mnode = M.MNode(is_block=True, sub=child.mnodes, reps=step["sub"].get("reps", 1), kind="<block>")
         level.children.append(child)
         built.count("blocks")
